@@ -142,3 +142,99 @@ def argext_calls(graph):
             elif n in ('numpy.argmin', 'method:argmin', 'numpy.nanargmin'):
                 out.append((e.term, 'min'))
     return out
+
+
+# ------------------------------------------------------------------------------------------------ exhaustive arg-max loops
+def _is_neg_inf_term(t):
+    t = strip_views(t)
+    v = const_val(t)
+    if v is not NOVAL and isinstance(v, float) and v == float('-inf'):
+        return True
+    if is_call_to(t, 'builtin.float') and const_val(call_arg(t, 0)) in ('-inf', '-Inf', '-infinity'):
+        return True
+    if t.op == 'unop' and t.args[0] == 'USub':
+        x = strip_views(t.args[1])
+        if x.op == 'ref' and getattr(x.args[0], 'dotted', None) in ('numpy.inf', 'math.inf', 'numpy.Inf', 'numpy.infty'):
+            return True
+        if is_call_to(x, 'builtin.float') and const_val(call_arg(x, 0)) in ('inf', 'Inf', 'infinity'):
+            return True
+    return False
+
+
+def _mentions(t, pred):
+    return any(pred(x) for x in walk_terms(t, into_mu=False))
+
+
+def exhaustive_searches(graph):
+    """loops of the shape   for p in <candidates>: c = f(p); if c > best: best, arg = c, p    recognised on the term graph:
+    loop-carried values (mu) whose next value is gamma(cmp, new, old) are grouped by their comparison.  Independent of variable
+    names, of the statement order inside the branch and of whether the candidate is computed inline or in temporaries."""
+    out = []
+    for L in graph.loops:
+        if L.kind != 'for':
+            continue
+        groups = {}
+        for name, mu in L.mus.items():
+            nx = getattr(mu, 'next', None)
+            if nx is None:
+                continue
+            nx = strip_views(nx)
+            if not (isinstance(nx, T) and nx.op == 'gamma'):
+                continue
+            cond, pol = nx.args[0], True
+            while cond.op == 'unop' and cond.args[0] == 'Not':
+                cond, pol = cond.args[1], not pol
+            if cond.op != 'cmp' or cond.args[0] not in ('Gt', 'GtE', 'Lt', 'LtE'):
+                continue
+            new, old = (nx.args[1], nx.args[2]) if pol else (nx.args[2], nx.args[1])
+            if strip_views(old) is not mu:
+                continue
+            groups.setdefault(id(cond), dict(cond=cond, pol=pol, items=[]))['items'].append((name, mu, new))
+        for grp in groups.values():
+            cond, pol = grp['cond'], grp['pol']
+            op, a, b = cond.args
+            if not pol:
+                op = {'Gt': 'LtE', 'GtE': 'Lt', 'Lt': 'GtE', 'LtE': 'Gt'}[op]
+            sa, sb = strip_views(a), strip_views(b)
+
+            def from_loop(x):
+                return _mentions(x, lambda y: y.op == 'elem' and y.extra is L)
+            # the running best is the side that does not depend on the loop variable (a loop-carried value or the start value)
+            if from_loop(sa) and not from_loop(sb):
+                cand, best, direction = a, sb, 'max' if op in ('Gt', 'GtE') else 'min'
+            elif from_loop(sb) and not from_loop(sa):
+                cand, best, direction = b, sa, 'max' if op in ('Lt', 'LtE') else 'min'
+            else:
+                cand, best, direction = a, sb, 'max' if op in ('Gt', 'GtE') else 'min'
+            rep = dict(loop=L, cond=cond, direction=direction, strict=op in ('Gt', 'Lt'), cand=cand, best=best, iter=L.iter)
+            best_items = [(n, m, new) for n, m, new in grp['items'] if m is best]
+            rep['best_updated_with_candidate'] = bool(best_items) and all(strip_views(new) is strip_views(cand) for _, _, new in best_items)
+            args = [(n, m, new) for n, m, new in grp['items'] if m is not best and strip_views(new).op == 'elem' and strip_views(new).extra is L]
+            rep['arg_updated_with_loop_var'] = bool(args)
+            rep['arg_mu'] = args[0][1] if args else None
+            rep['arg_name'] = args[0][0] if args else None
+            rep['candidate_from_loop_var'] = from_loop(strip_views(cand))
+            init = best.args[0] if best.op == 'mu' else best
+            # nested search: the start value of the inner loop is what the enclosing loop body assigned before it
+            rep['init_neg_inf'] = direction == 'max' and _is_neg_inf_term(init)
+            rep['early_exit'] = bool(L.breaks or L.continues) or any(e.kind == 'return' for e in L.body_events)
+            out.append(rep)
+    return out
+
+
+def enumeration_domain(iter_term):
+    """iter_term == [np.asarray / list / tuple of] itertools.permutations(range(X)) -> (permutations call, X term, complete?)
+    `complete` is False when the enumerated set is sliced / filtered or permutations gets an `r` argument."""
+    t = strip_views(iter_term)
+    while is_call_to(t, 'builtin.list', 'builtin.tuple') and len(call_parts(t)[1]) == 1 and not call_parts(t)[2]:
+        t = strip_views(call_parts(t)[1][0])
+    if not is_call_to(t, 'itertools.permutations'):
+        inner = [x for x in walk_terms(t, into_mu=False) if is_call_to(x, 'itertools.permutations')]
+        return (inner[0], None, False) if inner else (None, None, False)
+    _, pos, kw = call_parts(t)
+    if len(pos) != 1 or kw:
+        return t, None, False
+    r = strip_views(pos[0])
+    if is_call_to(r, 'builtin.range') and len(call_parts(r)[1]) == 1 and not call_parts(r)[2]:
+        return t, strip_views(call_parts(r)[1][0]), True
+    return t, None, False
